@@ -30,13 +30,16 @@ def oracle(sc):
         sp = specs.get(sid)
         if sp is not None and sp.dead:
             out.append(E.failure('entry-survives-termination', sc, sid=sid, kind=sp.kind, iam=sp.iam, ended_by=sp.why))
-    if ck:
-        out.append(E.failure('partial-frame-left-in-reassembly-cache', sc, sids=list(ck)))
+    for sid in ck:
+        sp = specs.get(sid)
+        out.append(E.failure('partial-frame-left-in-reassembly-cache', sc, sid=sid, kind=sp.kind if sp else None,
+                             iam=sp.iam if sp else None, ended_by=sp.why if sp else None))
     return out
 
 
 def classify(case):
-    if case.get('what') == 'entry-survives-termination' and case.get('kind') == 'rc' and case.get('ended_by') in ABNORMAL:
+    if case.get('what') in ('entry-survives-termination', 'partial-frame-left-in-reassembly-cache') and \
+            case.get('kind') == 'rc' and case.get('ended_by') in ABNORMAL:
         return 'KF-C10-channel-abnormal-end'
     return None
 
